@@ -12,7 +12,7 @@ Event codes (`Gen.Compress.vocab`, pinned by `vocab_codes`):
   21 http.DetectContentType · 22 initCompression · 23 Del Content-Length · 24 Set Content-Encoding · 25 Set Vary ·
   26 pool.Get · 27 w.Reset(cw.ResponseWriter) · 28 cw.writer = w · 29 encoder Close · 30 w.Reset(nil) · 31 pool.Put ·
   32 base WriteHeader(code) · 33 shouldSkipStatus · 34 shouldSkipContentType · 35 cw.committed = … · 36 cw.statusCode = … ·
-  37 Flush (encoder / base) · 42 cw.buffer = … · 47 Header().Clone()
+  37 Flush (encoder / base) · 42 cw.buffer = … · 43 cw.trailers = … · 47 Header().Clone() · 48 clear(h)
 -/
 import Rivaas.Gen.Compress
 import Rivaas.Tie.MwSkel
@@ -36,7 +36,8 @@ theorem vocab_codes :
        ".ResponseWriter.Header.Set(Vary)", ".pool.Get", ".Reset(.ResponseWriter)", "=.writer", ".writer.Close", ".Reset(nil)",
        ".pool.Put(.writer)", ".ResponseWriter.WriteHeader", "shouldSkipStatus", "shouldSkipContentType", "=.committed",
        "=.statusCode", ".Flush", ".Set(Content-Type)", "=.headersSent", "=.decided", "=.compress", "=.buffer", "=.trailers",
-       ".Request.Header.Get(Accept-Encoding)", "[].excludePaths", "range.excludeExtensions", ".ResponseWriter.Header.Clone"] := by
+       ".Request.Header.Get(Accept-Encoding)", "[].excludePaths", "range.excludeExtensions", ".ResponseWriter.Header.Clone",
+       "clear"] := by
   decide
 
 /-! ### `New`: decision order of the early exits, wrap, deferred Close before `c.Next()` -/
@@ -108,6 +109,15 @@ def flushOK (t : List Nat) : Bool := t == [] || (endsWith [37] t && before 11 16
 theorem flush_order (ρ : Atom → Bool) :
     flushOK (codesOf ((exec ρ cwFlush).trace.filter (keepCodes [11, 16, 37]))) = true :=
   every_exec cwFlush [11, 16, 37] flushOK (by decide) ρ
+
+def restoreOK (t : List Nat) : Bool := t == [] || (t.count 48 == 1 && endsWith [48, 35] t)
+
+/-- `restoreHeader`: nothing without a committed snapshot; otherwise the trailer values are taken aside (43) first, the live
+    map is emptied (`clear`, 48) on EVERY such path — not only when it grew — and the snapshot reinstalled before it is
+    dropped (35): `CW.restoreHeader` sets `live := h` whatever the map held -/
+theorem restoreHeader_clears_unconditionally (ρ : Atom → Bool) :
+    restoreOK (codesOf ((exec ρ cwrestoreHeader).trace.filter (keepCodes [35, 43, 48]))) = true :=
+  every_exec cwrestoreHeader [35, 43, 48] restoreOK (by decide) ρ
 
 /-! ### literal tables -/
 
